@@ -83,7 +83,7 @@ def central_rules(ctx, facts, rep):
     good = len(reads) == 2
     for bi, t in reads:
         for r in roles.get(bi, []):
-            if r[0] == "arg" and not re.search(r"Try::branch|from_residual|checked_add|ok_or|AtomicU64::store|Seek::seek|SeekFrom", str(r[1])):
+            if r[0] == "arg" and not re.search(r"Try::branch|from_residual|checked_add|ok_or|AtomicU64::store|Seek::seek|SeekFrom|convert::(From|Into)::", str(r[1])):
                 good = False
             if r[0] == "arg" and re.search(r"Read::take", str(r[1])):
                 good = False
@@ -95,7 +95,7 @@ def central_rules(ctx, facts, rep):
     if not st:
         raise AnchorLost("data_start store in find_content")
     v = norm(ex.operand(st[0][1]["args"][1], (st[0][0], None)))
-    consts = sorted(x[2] for x in walk(v) if x[0] == "const" and isinstance(x[2], int))
+    consts = sorted(x[2] for x in walk(v) if x[0] in ("const", "named") and isinstance(x[2], int))
     fixed = spec["records"]["LFH"]["fixed_size"]
     rs = [x[4] for x in walk(v) if x[0] == "call" and x[1].endswith("read_u16")]
     good = ".header_start" in tokens(v) and sum(consts) == fixed and len(set(rs)) == 2
@@ -107,7 +107,7 @@ def central_rules(ctx, facts, rep):
     cur = [norm(ex.operand(t["args"][1], (bi, None))) for bi, t in sk]
     curs = [c for c in cur if c[0] == "agg" and c[1] == "adt:Current"]
     want = spec["patch_offsets"]["lfh_skip_after_signature_to_name_len"]
-    good = len(curs) == 1 and curs[0][3][0][1][0] == "const" and curs[0][3][0][1][2] == want
+    good = len(curs) == 1 and curs[0][3][0][1][0] in ("const", "named") and curs[0][3][0][1][2] == want
     ok &= rep.check(good, rule, "skip-to-lengths", where(fc, fc.span), "skips %d bytes from the signature to the name length (APPNOTE 4.3.7)" % want,
                     "find_content skips %s bytes after the signature; the name length field is %d bytes after it" % ([show(c) for c in curs], want))
     # signature compared
